@@ -54,14 +54,20 @@ FILES = [
 ALL = [c for c in os.environ.get("TWIN_CHECKS", "").split(",") if c] or [f"C{i:02d}" for i in range(1, 21)]
 
 
-from sa.variants import locals_of, rename  # noqa: E402
+from sa.variants import locals_of, rename, structural_twins  # noqa: E402
 
 
 def main():
     filt = sys.argv[1:]
     jobs = []
+    mode = os.environ.get("TWIN_MODE", "rename")
     for rel in FILES:
         if filt and not any(f in rel for f in filt):
+            continue
+        if mode != "rename":
+            for desc, ov in structural_twins(REPO, rel, tuple(mode.split(","))):
+                for pid in ALL:
+                    jobs.append((rel, desc.split(":")[-1], 0, mode, pid, (f"rules.{pid.lower()}", REPO, ov, "quick")))
             continue
         text = open(os.path.join(REPO, rel), encoding="utf-8").read()
         tree = ast.parse(text)
@@ -89,7 +95,7 @@ def main():
         for job, (fired, err) in zip(jobs, ex.map(_eval_overlay, [j[5] for j in jobs], chunksize=20)):
             if fired:
                 bad.append({"file": job[0], "function": job[1], "line": job[2], "local": job[3], "check": job[4], "fired": fired, "error": err})
-    out = os.path.join(HERE, "notes", "twin_sweep.json")
+    out = os.path.join(HERE, "notes", f"twin_sweep_{mode.replace(',', '_')}.json")
     json.dump({"twins": len(jobs) // len(ALL), "checks": ALL, "evaluations": len(jobs), "false_alarms": bad}, open(out, "w"), indent=1)
     for b in bad:
         print(f"FALSE ALARM {b['check']} {b['fired']} on rename of local '{b['local']}' in {b['file']}:{b['function']}@{b['line']} {b['error'] or ''}")
